@@ -46,6 +46,8 @@ class Monitor:
         self.sites = None               # optional set of (kind, file, func, line)
         self.in_callback = 0
         self.instr_codes = ()
+        self._with_cache = {}
+        self.veto = None                # optional callable: True = this event is not an eligible crash point
         self.last_count = 0             # matching events counted by the most recent armed fault
         self.cur = 0                    # index of the running simulated thread (set by the scheduler)
 
@@ -160,6 +162,25 @@ class Monitor:
                 hit = kind == 'P'
             elif fk == 'sync_record':
                 hit = kind == 'P' and self._within(f.get('within', '_capture_exception'))
+            elif fk == 'sync_script2':
+                # crash point = the kI-th instructor-script LINE event, then dP further script/pedal events
+                if f.get('_stage', 0) == 0:
+                    if kind == 'I':
+                        f['_i'] = f.get('_i', 0) + 1
+                        if f['_i'] == f['kI']:
+                            f['_stage'] = 1
+                            f['k'] = f.get('dP', 0) + 1
+                            f['_count'] = 0
+                            hit = True
+                else:
+                    hit = kind in ('I', 'P')
+            if hit and self._is_with_line(filename, line):
+                # the LINE event of a `with` statement also fires when the block is LEFT, just before __exit__ is
+                # called; raising there would skip __exit__ -- that is an asynchronous-exception hazard of
+                # Python itself, not a synchronous crash point
+                hit = False
+            if hit and self.veto is not None and fk in ('sync_script2', 'sync_pedal', 'sync_script') and self.veto():
+                hit = False        # not an eligible crash point (see the engine that installed the veto)
             if hit:
                 f['_count'] += 1
                 if f['_count'] == f['k']:
@@ -184,6 +205,15 @@ class Monitor:
                 self._injected = exc
                 raise exc
         return None
+
+    def _is_with_line(self, filename, line):
+        key = (filename, line)
+        r = self._with_cache.get(key)
+        if r is None:
+            import linecache
+            text = linecache.getline(filename, line).lstrip()
+            r = self._with_cache[key] = text.startswith('with ') or text.startswith('async with ')
+        return r
 
     def _within(self, func_name):
         fr = sys._getframe(2)
